@@ -112,3 +112,13 @@ def coded_consistent(y, first, stride):
     d = np.asarray(y.data).reshape(n, -1).real
     want = first + (stride or 0) * np.arange(n)
     return bool(np.array_equal(d, np.broadcast_to(want[:, None], d.shape)))
+
+
+def make_dm(rng, dmv, p=0.3):
+    """a DispersionMeasure of dmv pc/cm^3; with probability p held in another, equivalent unit (the value the library must convert)"""
+    import astropy.units as u
+    import pulsarbat as pb
+    if rng.random() >= p:
+        return pb.DM(dmv)
+    unit = rng.choice([u.cm ** -2, u.m ** -2, u.pc / u.m ** 3, u.kpc / u.cm ** 3, u.lyr / u.cm ** 3])
+    return pb.DispersionMeasure((dmv * u.pc / u.cm ** 3).to(unit))
